@@ -81,7 +81,7 @@ func hasCRLF(s []byte) bool {
 
 func parseNested(b []byte) (string, []byte, bool) {
 	i := bytes.Index(b, []byte("\r\n"))
-	if i < 0 || len(b) == 0 {
+	if i < 1 {
 		return "", nil, false
 	}
 	line, rest := b[1:i], b[i+2:]
